@@ -149,6 +149,89 @@ def check_state(prog: Program, res: Result) -> None:
     res.floor(R, 10)
 
 
+def check_label_frames(prog: Program, res: Result) -> None:
+    """Building training data never changes the caller's label set.  The data layer filters frames to their user instances
+    by ASSIGNING `lf.instances = lf.user_instances`; that is harmless only on a private deep copy of the labels
+    (LabelsReaderDP takes one).  Every such store is classified: the frame comes from `self.labels` of a class whose
+    constructor bound `self.labels = copy.deepcopy(<argument>)` -> private; anything else (the argument itself, a shallow
+    copy.copy whose frames are shared, a frame received as a parameter) writes through to the caller: the predicted
+    instances of that frame disappear from the caller's Labels, and from every dataset / reader built from it later."""
+    R = "C11-labels"
+    n = 0
+    for fi in prog.all_functions():
+        if not fi.module.name.startswith("sleap_nn.data"):
+            continue
+        for st in walk_function(fi.node):
+            if not (isinstance(st, ast.Assign) and len(st.targets) == 1 and isinstance(st.targets[0], ast.Attribute) and st.targets[0].attr == "instances"
+                    and isinstance(st.targets[0].value, ast.Name)):
+                continue
+            n += 1
+            res.touch(fi)
+            private = False
+            if fi.cls is not None:
+                for c in prog.mro(fi.cls):
+                    init = c.methods.get("__init__")
+                    binds = [b for b in walk_function(init.node) if isinstance(b, ast.Assign) and norm(b.targets[0]) == "self.labels"] if init is not None else []
+                    if binds:   # how the class first obtains its label set decides whose frames it holds
+                        first = min(binds, key=lambda b_: b_.lineno)
+                        private = isinstance(first.value, ast.Call) and norm(first.value.func) in ("copy.deepcopy", "deepcopy")
+                        break
+            res.ob(R, private, fi.qualname, "the store into <frame>.instances hits a private deep copy of the labels",
+                   f"`{short(st, 50)}` stores into a label frame that is shared with the caller (no deep copy of the label set was taken): constructing the dataset / reading a frame "
+                   "removes the predicted instances of that frame from the caller's Labels", f"{fi.module.relpath}:{st.lineno}",
+                   sample=short(st, 60))
+    res.floor(R, 4)
+
+
+def check_own_cache(prog: Program, res: Result) -> None:
+    """Every dataset object owns its containers: a mutable container declared in the CLASS body (cache: Dict = {}) is one
+    object shared by all instances of all subclasses - building a second dataset overwrites the samples the first one
+    cached, so ds[i] depends on what else was constructed.  Each container a method fills through `self.` is bound
+    per instance in an __init__ of the class or a base."""
+    R = "C11-own"
+    n = 0
+    mutable = lambda v: isinstance(v, (ast.Dict, ast.List, ast.Set, ast.ListComp, ast.DictComp)) or (
+        isinstance(v, ast.Call) and norm(v.func).split(".")[-1] in ("dict", "list", "set", "defaultdict", "OrderedDict", "deque"))
+    for mod, names in ((CD, DATASETS + ["BaseDataset"]), (SD, STREAMING)):
+        for cname in names:
+            ci = prog.cls(f"{mod}:{cname}")
+            mro = prog.mro(ci)
+            # containers the methods mutate through self
+            filled = set()
+            for c in mro:
+                for fi in c.methods.values():
+                    for nd in walk_function(fi.node):
+                        if isinstance(nd, ast.Subscript) and isinstance(nd.ctx, (ast.Store, ast.Del)) and isinstance(nd.value, ast.Attribute) and norm(nd.value.value) == "self":
+                            filled.add(nd.value.attr)
+                        if isinstance(nd, ast.Call) and isinstance(nd.func, ast.Attribute) and nd.func.attr in ("append", "extend", "update", "setdefault", "add", "pop") \
+                                and isinstance(nd.func.value, ast.Attribute) and norm(nd.func.value.value) == "self":
+                            filled.add(nd.func.value.attr)
+            per_instance = set()
+            for c in mro:
+                init = c.methods.get("__init__")
+                if init is not None:
+                    for st in walk_function(init.node):
+                        if isinstance(st, (ast.Assign, ast.AnnAssign)):
+                            for t in astq.stmt_targets(st):
+                                if isinstance(t, ast.Attribute) and norm(t.value) == "self":
+                                    per_instance.add(t.attr)
+            for c in mro:
+                for st in c.node.body:
+                    tgt = st.targets[0] if isinstance(st, ast.Assign) and len(st.targets) == 1 else (st.target if isinstance(st, ast.AnnAssign) else None)
+                    val = getattr(st, "value", None)
+                    if isinstance(tgt, ast.Name) and val is not None and mutable(val):
+                        n += 1
+                        res.ob(R, tgt.id in per_instance or tgt.id not in filled, ci.qualname, f"class-level `{tgt.id}` is not the container the instances fill",
+                               f"`{c.name}.{tgt.id}` is a mutable container created once in the class body and filled through `self.{tgt.id}` without a per-instance "
+                               f"binding in __init__: all {cname} objects (and every other subclass) share it, so a second dataset overwrites the first one's cached samples",
+                               f"{c.module.relpath}:{st.lineno}")
+            for nm in sorted(filled):
+                n += 1
+                res.ob(R, nm in per_instance, ci.qualname, f"self.{nm} is created per instance in __init__",
+                       f"`self.{nm}` is filled by the methods of {cname} but never bound in an __init__ of the class or its bases", f"{ci.module.relpath}:{ci.node.lineno}")
+    res.floor(R, 5)
+
+
 def _is_not_empty_test(t: ast.AST) -> Optional[str]:
     """name X if t is `not X.is_empty`."""
     if isinstance(t, ast.UnaryOp) and isinstance(t.op, ast.Not) and isinstance(t.operand, ast.Attribute) and t.operand.attr == "is_empty":
@@ -231,13 +314,14 @@ def check(prog: Program, res: Result) -> None:
     check_pure(prog, res, al)
     check_cache(prog, res, al)
     check_state(prog, res)
+    check_own_cache(prog, res)
+    check_label_frames(prog, res)
     check_len(prog, res)
     res.extra["alias"].update({"functions_analysed": len(al.analysed), "unknown_methods_treated_as_alias": dict(sorted(al.unknown_methods.items()))})
     for fi in al.analysed:
         res.touch(fi)
     res.assumptions += [
         "A-sio: sleap_io Instance.numpy() returns a copy",
-        "attribute stores on label objects (lf.instances = lf.user_instances) filter the caller's Labels by design and are outside C11's tensor scope",
         "bit-identity of repeated reads through the .npz path (PIL quantisation) is library behaviour and not decided",
     ]
 
